@@ -58,6 +58,7 @@ type Exec struct {
 	retPaths int
 	kinds    map[string]int
 	refKey   map[string]bool
+	escMemo  map[*ssa.Alloc]bool
 	readLog  map[string]bool            // when non-nil: heap keys read (for opaque spec functions)
 	opReads  map[string][]string        // opaque func -> heap keys its body reads
 	opSyms   map[string]string          // opaque func + heap tuple -> UF symbol
@@ -538,7 +539,7 @@ func (x *Exec) Run() {
 	st := &State{alloc: "|alloc@0|", H: Heap{M: map[string]string{}}, iters: map[ssa.Value]*iterState{}}
 	st.assume("(>= |alloc@0| 0)")
 	x.installAxioms()
-	fr := &Frame{fn: fn, vals: map[ssa.Value]Val{}, names: map[string]Val{}, block: fn.Blocks[0], kind: fkTop, variant: map[int]string{}, loopOld: map[int]Heap{}}
+	fr := &Frame{fn: fn, vals: map[ssa.Value]Val{}, names: map[string]Val{}, block: fn.Blocks[0], kind: fkTop, variant: map[int]string{}, loopOld: map[int]Heap{}, locals: map[*ssa.Alloc]Val{}}
 	st.fr = fr
 	x.entry = map[string]Val{}
 	for _, p := range fn.Params {
@@ -658,6 +659,8 @@ func (x *Exec) step(st *State, ins ssa.Instruction) {
 					fr.names[id.Name] = nameAddr{tv.T, deref(tv.Ty)}
 				} else if ad, ok := v.(AD); ok {
 					fr.names[id.Name] = ad
+				} else if lr, ok := v.(localRef); ok {
+					fr.names[id.Name] = lr
 				}
 			} else {
 				fr.names[id.Name] = v
@@ -666,6 +669,16 @@ func (x *Exec) step(st *State, ins ssa.Instruction) {
 		next()
 	case *ssa.Alloc:
 		t := deref(ins.Type())
+		if !isArray(t) && !x.escapes(ins) {
+			// a local whose address never leaves the function: kept as a (mutable) register value, no heap traffic
+			fr.locals[ins] = x.zeroVal(t)
+			x.setVal(st, ins, localRef{a: ins})
+			if ins.Comment != "" && !strings.Contains(ins.Comment, " ") && ins.Comment != "varargs" && ins.Comment != "complit" && ins.Comment != "new" {
+				fr.names[ins.Comment] = localRef{a: ins}
+			}
+			next()
+			return
+		}
 		r := x.newObj(st, "new."+shorten(ins.Comment, 12))
 		if isArray(t) {
 			at := under(t).(*types.Array)
@@ -685,6 +698,11 @@ func (x *Exec) step(st *State, ins ssa.Instruction) {
 		}
 		next()
 	case *ssa.FieldAddr:
+		if lr, ok := x.val(st, ins.X).(localRef); ok {
+			x.setVal(st, ins, localRef{a: lr.a, path: append(append([]int(nil), lr.path...), ins.Field)})
+			next()
+			return
+		}
 		p := x.val(st, ins.X).(TV)
 		x.safety(st, ins, "nil", not(eq(p.T, "0")))
 		structT := deref(ins.X.Type())
@@ -898,6 +916,85 @@ func (x *Exec) initGhost(st *State, t types.Type, obj string) {
 	}
 }
 
+// localRef designates (a field path inside) a non-escaping local variable.
+type localRef struct {
+	a    *ssa.Alloc
+	path []int
+}
+
+func frameOf(fr *Frame, a *ssa.Alloc) *Frame {
+	for f := fr; f != nil; f = f.parent {
+		if _, ok := f.locals[a]; ok {
+			return f
+		}
+	}
+	panic("internal: local not found " + a.Name())
+}
+
+func (x *Exec) localGet(fr *Frame, r localRef) Val {
+	v := frameOf(fr, r.a).locals[r.a]
+	for _, i := range r.path {
+		v = v.(SV).F[i]
+	}
+	return v
+}
+
+func (x *Exec) localSet(fr *Frame, r localRef, nv Val) {
+	f := frameOf(fr, r.a)
+	var upd func(v Val, path []int) Val
+	upd = func(v Val, path []int) Val {
+		if len(path) == 0 {
+			return nv
+		}
+		sv := v.(SV)
+		nf := append([]Val(nil), sv.F...)
+		nf[path[0]] = upd(sv.F[path[0]], path[1:])
+		return SV{sv.Ty, nf}
+	}
+	f.locals[r.a] = upd(f.locals[r.a], r.path)
+}
+
+// escapes: may the address of this local be observed by anything but direct field loads and stores?
+func (x *Exec) escapes(a *ssa.Alloc) bool {
+	if e, ok := x.escMemo[a]; ok {
+		return e
+	}
+	var addrOnly func(v ssa.Value) bool
+	addrOnly = func(v ssa.Value) bool {
+		refs := v.Referrers()
+		if refs == nil {
+			return false
+		}
+		for _, r := range *refs {
+			switch r := r.(type) {
+			case *ssa.DebugRef:
+			case *ssa.UnOp:
+				if r.Op != token.MUL {
+					return false
+				}
+			case *ssa.Store:
+				if r.Val == v {
+					return false
+				}
+			case *ssa.FieldAddr:
+				if !isStruct(deref(v.Type())) || !addrOnly(r) {
+					return false
+				}
+			default:
+				return false
+			}
+		}
+		return true
+	}
+	t := deref(a.Type())
+	e := !(isStruct(t) || isScalar(t) || isSlice(t)) || !addrOnly(a)
+	if x.escMemo == nil {
+		x.escMemo = map[*ssa.Alloc]bool{}
+	}
+	x.escMemo[a] = e
+	return e
+}
+
 // viewPtr is a *[N]T obtained from a slice with non-zero offset.
 type viewPtr struct {
 	sl SL
@@ -948,6 +1045,8 @@ func (x *Exec) stepIndexAddr(st *State, ins *ssa.IndexAddr) {
 
 func (x *Exec) loadFrom(st *State, h Heap, addr Val, t types.Type) Val {
 	switch a := addr.(type) {
+	case localRef:
+		return x.localGet(st.fr, a)
 	case AD:
 		if a.Kind == "field" {
 			return x.loadField(st, h, a.structT, a.fld, a.Obj)
@@ -978,6 +1077,8 @@ func (x *Exec) loadFrom(st *State, h Heap, addr Val, t types.Type) Val {
 
 func (x *Exec) storeTo(st *State, ins ssa.Instruction, addr Val, t types.Type, v Val) {
 	switch a := addr.(type) {
+	case localRef:
+		x.localSet(st.fr, a, v)
 	case AD:
 		if a.Kind == "field" {
 			x.storeField(st, a.structT, a.fld, a.Obj, v)
